@@ -166,7 +166,8 @@ def _parents(n):
 
 # reviewed sites at which a KMIP error text is the text of a foreign exception: (function, calls in the try body) -> why the text is never empty
 T_FOREIGN_TEXT = {
-    ('CryptographyEngine.wrap_key', ('keywrap.aes_key_wrap',)): 'cryptography.hazmat.primitives.keywrap raises ValueError with literal, non-empty messages only',
+    ('CryptographyEngine.wrap_key', 'keywrap.aes_key_wrap'): 'cryptography.hazmat.primitives.keywrap.aes_key_wrap raises ValueError with literal, non-empty messages only',
+    ('CryptographyEngine.wrap_key', 'keywrap.aes_key_wrap_with_padding'): 'cryptography.hazmat.primitives.keywrap.aes_key_wrap_with_padding raises ValueError with a literal, non-empty message only',
 }
 
 
@@ -190,13 +191,23 @@ def check_failure_messages_nonempty(ctx, rule='C02.R9'):
                         # a literal prefix/suffix makes the text non-empty: "...{}".format(e), "..." + str(e), "...%s" % e
                         lit = any(isinstance(y, ast.Constant) and isinstance(y.value, str) and y.value.strip() for a in derived for y in ast.walk(a))
                         n += 1
-                        callees = tuple(sorted(set(call_name(c) for st in tr.body for c in ast.walk(st) if isinstance(c, ast.Call) and call_name(c) and '.' in call_name(c) and not call_name(c).startswith('self.logger'))))
-                        key = (qn, callees)
+                        callees = set(call_name(c) for st in tr.body for c in ast.walk(st) if isinstance(c, ast.Call) and call_name(c) and '.' in call_name(c) and not call_name(c).startswith('self.logger'))
+                        # a callee looked up in an instance table of the class (f = self._table.get(K); f(...)): every entry of the table
+                        if cls is not None:
+                            from ..astutil import table_callees
+                            for st in tr.body:
+                                for c in ast.walk(st):
+                                    if isinstance(c, ast.Call) and isinstance(c.func, ast.Name):
+                                        ents = table_callees(cls, fn, c)
+                                        for k_, v_ in ents or ():
+                                            callees.add(dotted(v_) or U(v_))
+                        callees = tuple(sorted(callees))
                         site = '%s:%s %s' % (rel, r.lineno, qn)
                         if lit:
                             ctx.ok(rule, site, 'foreign exception text embedded in a literal')
                         else:
-                            why = T_FOREIGN_TEXT.get(key)
+                            whys = [T_FOREIGN_TEXT.get((qn, c_)) for c_ in callees]
+                            why = '; '.join(whys) if callees and all(whys) else None
                             ctx.check(why is not None, rule, '%s|message = text of the caught %s' % (qn, dotted(h.type) or 'exception'), site, 'reviewed: %s' % why,
                                       'the error text is exactly the text of the caught exception (calls in the try body: %s), which is not in the reviewed table; exceptions such as cryptography.exceptions.InvalidTag have an empty text, and a failed item with an empty message is emitted without a Result Message structure (its encoding fails)' % list(callees))
     ctx.count('foreign_exception_text_sites', n, 1)
